@@ -22,6 +22,9 @@ pub struct SimCfg {
     pub rng_seed: u64,
     /// epoch, seconds after UNIX_EPOCH — always explicit
     pub epoch_s: u64,
+    /// sub-second part of the epoch in microseconds (0 unless a property sets it)
+    #[serde(default)]
+    pub epoch_sub_us: u32,
     pub tick_us: u64,
     pub duration_ms: u64,
     pub min_latency_us: u64,
@@ -44,6 +47,7 @@ impl Default for SimCfg {
         SimCfg {
             rng_seed: 1,
             epoch_s: 1_700_000_000,
+            epoch_sub_us: 0,
             tick_us: 1000,
             duration_ms: 10_000,
             min_latency_us: 0,
@@ -104,6 +108,7 @@ impl SimCfg {
         SimCfg {
             rng_seed: rng.next_u64(),
             epoch_s: 1_000_000_000 + rng.below(1_000_000_000),
+            epoch_sub_us: 0,
             tick_us,
             duration_ms: 3_600_000,
             min_latency_us,
@@ -136,7 +141,7 @@ impl SimCfg {
     pub fn build<'a>(&self) -> Sim<'a> {
         let mut b = Builder::new();
         b.rng_seed(self.rng_seed)
-            .epoch(UNIX_EPOCH + Duration::from_secs(self.epoch_s))
+            .epoch(UNIX_EPOCH + Duration::from_secs(self.epoch_s) + Duration::from_micros(self.epoch_sub_us as u64))
             .tick_duration(self.tick())
             .simulation_duration(Duration::from_millis(self.duration_ms))
             .min_message_latency(self.min_latency())
